@@ -3,7 +3,7 @@ from .common import *
 from oracle.isserlis import E_forms
 from oracle.common import log_gauss_integral
 PROPERTY = "C03"
-LEAN_MODULES = ["GT.Props.C03"]
+LEAN_MODULES = ["GT.Props.C03", "GT.Props.C03Integral"]
 ASSUMPTIONS = ["float64 rounding outside the theorems; exact mode: integer inputs, results compared bit for bit"]
 
 # key -> (letters of the forms, output dims of the forms as indices into (K,L,M), contraction)
